@@ -26,6 +26,7 @@ pub fn drain_in_child(case: &EnumCase) -> Report {
             return report;
         }
     };
+    drive::reset_budget();
     let product = cfg.product();
     let bound: u64 = if product < (u64::MAX / 4096) as u128 { (product as u64).saturating_mul(1176).saturating_add(16) } else { 0 };
     let any_empty = cfg.ranges.iter().any(|r| r.is_empty());
@@ -95,7 +96,7 @@ pub fn drain_in_child(case: &EnumCase) -> Report {
     match &outcome {
         Err(p) if p.contains(BOUND_PANIC) => report.violate(
             format!("{}:non-termination", sig),
-            format!("{}: more than 1176 x prod(len) + 16 = {} deals were considered: the iteration does not advance", case.label, bound),
+            format!("{}: the iteration does not advance (bound 1176 x prod(len) + 16 = {} considered deals): {}", case.label, bound, p),
             case_json.clone(),
         ),
         Err(p) => report.violate(
